@@ -25,6 +25,7 @@ import Rsa.Lemmas.C09
 import Rsa.Lemmas.C09Rdm
 import Rsa.Lemmas.C09R3
 import Rsa.Lemmas.C09R4
+import Rsa.Lemmas.C09R6
 import Rsa.Gen.C09
 
 set_option linter.unusedSectionVars false
@@ -1088,5 +1089,74 @@ example : ((exStack.gather [2, 2, 0, 0]).vecs, (exStack.gather [2, 2, 0, 0]).pat
     ([[none, some 2, some 2, some 2, some 2, none], [none, none, none, none, none, none]],
      [("index", [2, 2, 0, 0]), ("cat", [5, 5, 5, 5])]) := by
   decide
+
+/-! ## round 6: large stacks — every RDM of a sample, blocks of RDMs, restriction to some RDMs -/
+
+/-- **Every RDM of the sample, the last one included.**  `subsample_pattern` keeps the number of
+    RDMs, and RDM number `p` of the sample is the selection applied to RDM number `p` of the source —
+    for every `p`, however many RDMs the stack has. -/
+theorem sample_every_rdm (s : Stack L α) (by_ : String) (value : List L) (desc : List L)
+    (hd : s.patDesc.lookup by_ = some desc) :
+    ∃ r, s.subsamplePattern by_ value = some r ∧ r.vecs.length = s.vecs.length ∧
+      ∀ p : Nat, r.vecs[p]? = (s.vecs[p]?).map (subVec s.nCond (patSelection desc value)) := by
+  simp only [Stack.subsamplePattern, hd]
+  exact ⟨_, rfl, by simp, fun p => by simp⟩
+
+/-- **Block-wise evaluation.**  Converting / NaN-diagonalising / selecting the RDMs `b` at a time and
+    concatenating the blocks gives the sample of the whole stack, for every block size `b > 0` and
+    every number of RDMs (a multiple of `b` or not). -/
+theorem blockwise_eq (b : Nat) (hb : 0 < b) (s : Stack L α) (by_ : String) (value : List L) :
+    s.subsamplePatternBlocked b by_ value = s.subsamplePattern by_ value := by
+  unfold Stack.subsamplePatternBlocked Stack.subsamplePattern
+  cases s.patDesc.lookup by_ with
+  | none => rfl
+  | some desc => simp only [flatMap_map_chunks _ b hb]
+
+/-- the blocks cover the RDMs exactly once, in order, and there are `⌈n_rdm / b⌉` of them — the
+    remainder block counts (a loop over `n_rdm / b` blocks leaves the last `n_rdm % b` RDMs out) -/
+theorem blocks_cover (b : Nat) (hb : 0 < b) (s : Stack L α) :
+    (chunks b s.vecs).flatten = s.vecs ∧ (chunks b s.vecs).length = (s.vecs.length + b - 1) / b :=
+  ⟨chunks_flatten b hb _, chunks_length b hb _⟩
+
+/-- non-vacuity: 5 RDMs in blocks of 2 are 3 blocks, the last one holding the single last RDM -/
+example : chunks 2 [10, 11, 12, 13, 14] = [[10, 11], [12, 13], [14]] := by decide
+example : (5 + 2 - 1) / 2 = 3 ∧ 5 / 2 = 2 := by decide
+
+/-- **Restriction to some RDMs commutes with the pattern selection**: the pattern sample of the
+    stack made of the RDMs at positions `rows` (any positions: first, last, block boundaries) is the
+    pattern sample of the whole stack restricted to the same positions.  (Justifies running the Lean
+    driver on a few RDMs of a large stack.) -/
+theorem subsamplePattern_rdm_local (s : Stack L α) (rows : List Nat) (by_ : String)
+    (value : List L) :
+    (s.restrictRdm rows).subsamplePattern by_ value =
+      (s.subsamplePattern by_ value).map (fun r => r.restrictRdm rows) := by
+  unfold Stack.subsamplePattern Stack.restrictRdm
+  cases h : s.patDesc.lookup by_ <;> simp [h, pick_map]
+
+example : ((exStack.restrictRdm [1]).subsamplePattern "cat" [5, 5]).map (·.vecs) =
+    (exStack.subsamplePattern "cat" [5, 5]).map (fun r => (r.restrictRdm [1]).vecs) := by
+  rw [subsamplePattern_rdm_local, Option.map_map]; rfl
+
+/-- the restricted stack really is the first RDM alone; gathering its conditions 0, 2 gives the
+    source entry of that pair -/
+example : ((exStack.restrictRdm [0]).gather [0, 2]).vecs = [[some 2]] ∧
+    (exStack.restrictRdm [0]).rdmDesc = [("index", [0]), ("subj", [7])] := by decide
+
+/-- **What the driver runs on large stacks is the as-coded entry point.**  `largeSample` with the
+    stack's own grouping descriptors is `bootstrap_sample` / `_rdm` / `_pattern` as coded. -/
+theorem largeSample_full (s : Stack Lbl α) (rdmBy patBy : String) (rdesc pdesc : List Lbl)
+    (hr : s.rdmDesc.lookup rdmBy = some rdesc) (hp : s.patDesc.lookup patBy = some pdesc)
+    (dr dp : List Nat) :
+    largeSample s (some (rdmBy, rdesc, dr)) (some (patBy, pdesc, dp)) =
+        bootstrapSampleNp false s rdmBy patBy dr dp ∧
+    largeSample s none (some (patBy, pdesc, dp)) =
+        (bootstrapSamplePatternNp s patBy dp).map (fun x => (x.1, [], x.2)) ∧
+    largeSample s (some (rdmBy, rdesc, dr)) none =
+        (bootstrapSampleRdmNp false s rdmBy dr).map (fun x => (x.1, x.2, [])) := by
+  refine ⟨?_, ?_, ?_⟩
+  · simp [largeSample, bootstrapSampleNp, bootstrapSampleRdmNp, Stack.subsample, hr, hp]
+  · simp only [largeSample, bootstrapSamplePatternNp, hp]
+    cases s.subsamplePatternNp patBy (bootIdx (uniq Lbl.le (npCoerce pdesc)) dp) <;> rfl
+  · simp [largeSample, bootstrapSampleRdmNp, Stack.subsample, hr]
 
 end Rsa.Props.C09
